@@ -6009,6 +6009,8 @@ class LazyContainer(dict):
             index = self._struct._subconsindexes[index] # KeyError
         if index in self._values:
             return self._values[index]
+        if not isinstance(index, int) or index+1 not in self._offsets:
+            raise KeyError(index) # member behind a StopIf that ended the parse
         fallback = stream_tell(self._stream, self._path)
         stream_seek(self._stream, self._offsets[index], 0, self._path) # KeyError
         parseret = self._struct.subcons[index]._parsereport(self._stream, self._context, self._path)
@@ -6017,7 +6019,7 @@ class LazyContainer(dict):
         return parseret
 
     def __len__(self):
-        return len(self._struct.subcons)
+        return len(self._offsets)-1
 
     def get(self, key, default=None):
         try:
@@ -6026,13 +6028,13 @@ class LazyContainer(dict):
             return default
 
     def keys(self):
-        return iter(self._struct._subcons)
+        return (k for k in self._struct._subcons if self._struct._subconsindexes[k]+1 in self._offsets)
 
     def values(self):
-        return (self[k] for k in self._struct._subcons)
+        return (self[k] for k in self.keys())
 
     def items(self):
-        return ((k, self[k]) for k in self._struct._subcons)
+        return ((k, self[k]) for k in self.keys())
 
     __iter__ = keys
 
@@ -6090,7 +6092,10 @@ class LazyStruct(Construct):
                 stream_seek(stream, offset, 0, path)
             except SizeofError:
                 stream_seek(stream, offset, 0, path)
-                parseret = sc._parsereport(stream, context, path)
+                try:
+                    parseret = sc._parsereport(stream, context, path)
+                except StopFieldError:
+                    break
                 values[i] = parseret
                 if sc.name:
                     context[sc.name] = parseret
